@@ -121,9 +121,17 @@ func (r *Recomposer) registerComposer(rt reflect.Type, fun RecomposeFunc) (*comp
 		// [][]*T or map[string][]T are registered now and not lazily by the
 		// first Recompose, which would write the composers map while other
 		// goroutines read it.
+		seen := map[reflect.Type]bool{}
 		for unwrap := true; unwrap; {
 			switch ft.Kind() {
 			case reflect.Array, reflect.Slice, reflect.Map, reflect.Ptr:
+				if seen[ft] {
+					// A type that refers to itself such as
+					// type Tree map[string]Tree never gets to a struct.
+					unwrap = false
+					break
+				}
+				seen[ft] = true
 				ft = ft.Elem()
 			default:
 				unwrap = false
